@@ -20,6 +20,9 @@ def _lines(path):
 
 def replay_store(prop, path):
     from . import storeeng as S
+    if any(l.startswith("backend lru ") for l in _lines(path)):
+        from . import lrueng            # a trace of the memlru engine (memory backend built with small LRU capacities)
+        return lrueng.replay(prop, path)
     cases, cur = [], None
     for l in _lines(path):
         if l.startswith("backend "):
